@@ -463,6 +463,9 @@ pub struct DegreeEnvironment {
     // Tracks the variables which are assigned to by some statement (even if
     // the degree of the assigned value is unknown).
     assigned: HashSet<VariableName>,
+    // True if the paths which meet at the head of the current basic block are
+    // chosen by a condition which is not known to be constant.
+    conditional_join: bool,
 }
 
 impl DegreeEnvironment {
@@ -510,6 +513,19 @@ impl DegreeEnvironment {
     #[must_use]
     pub fn is_local(&self, var: &VariableName) -> bool {
         matches!(self.var_types.get(var), Some(VariableType::Local))
+    }
+
+    /// Records if the paths which meet at the head of the current basic block
+    /// are chosen by a condition which is not known to be constant.
+    pub fn set_conditional_join(&mut self, conditional_join: bool) {
+        self.conditional_join = conditional_join;
+    }
+
+    /// Returns true if the paths which meet at the head of the current basic
+    /// block are chosen by a condition which is not known to be constant.
+    #[must_use]
+    pub fn is_conditional_join(&self) -> bool {
+        self.conditional_join
     }
 }
 
